@@ -50,3 +50,40 @@ Theorem C14_fields : forall be bark fs ctx i attrs,
              (fun x => let '(attrs', ctx') := x in Syn.Ok (mk_fields i fs attrs', ctx')).
 Proof. exact fields_from_syn_threads. Qed.
 Print Assumptions C14_fields.
+
+(* ---- trait level ---- *)
+From O2o.Lemmas Require Import TraitRepeat.
+
+(* get_data_type_attrs threads exactly the trait instructions, in order, through the template map *)
+Theorem C14_trait_collect : forall instrs m acc d,
+    collect_dt_attrs instrs m acc = Syn.Ok d ->
+    exists l, thread m (dmaps instrs) = Syn.Ok l /\ d_attrs d = d_attrs acc ++ l.
+Proof. exact collect_threads. Qed.
+Print Assumptions C14_trait_collect.
+
+(* and that threading is the written-out form: each later instruction of the same key (= the same
+   instruction name, TablesFacts.key_injective) receives the parameters of the template opened by the
+   last `repeat(..)` of that key and not yet ended by a `stop_repeat` of that key; templates of other
+   keys never interfere *)
+Theorem C14_trait : forall l m pre l', inv m pre -> thread m l = Syn.Ok l' -> unroll pre l = Syn.Ok l'.
+Proof. exact thread_is_unroll. Qed.
+Print Assumptions C14_trait.
+
+Theorem C14_trait_start : inv [] [].
+Proof. exact inv_empty. Qed.
+Print Assumptions C14_trait_start.
+
+Theorem C14_trait_skip : forall a t, tc_skip a = true -> merge_trait_core a t = Syn.Ok a.
+Proof. exact merge_skip_trait. Qed.
+Print Assumptions C14_trait_skip.
+
+Theorem C14_trait_copies : forall a t fl r,
+    tc_skip a = false -> tc_repeat t = Some fl -> merge_trait_core a t = Syn.Ok r ->
+    tc_init r = (if rflag fl 0 then tc_init t else tc_init a) /\
+    tc_update r = (if rflag fl 1 then tc_update t else tc_update a) /\
+    tc_qret r = (if rflag fl 2 then tc_qret t else tc_qret a) /\
+    tc_default r = (if rflag fl 3 then tc_default t else tc_default a) /\
+    tc_ty r = tc_ty a /\ tc_err r = tc_err a /\ tc_hint r = tc_hint a /\
+    tc_attr r = tc_attr a /\ tc_impl_attr r = tc_impl_attr a /\ tc_inner_attr r = tc_inner_attr a.
+Proof. exact merge_copies_selected. Qed.
+Print Assumptions C14_trait_copies.
